@@ -12,14 +12,14 @@ import numpy as np
 from .. import env
 from .. import workloads as W
 from ..monitors import steps, trace
-from ..tools.c10_baseline import digest
+from ..tools.c10_baseline import digest, observe_system
 from ..util import StepTimeout, time_limit
 
 ID = "C10"
 LEVEL = "exploration"
 CASE_TIMEOUT = 1800
 RULE = (
-    "one case = one history: a random sequence of 40-160 operations over a pool of 3-12 parsed objects (all archetypes; two pool entries share one string; most entries are accompanied by a twin whose fragments are the same molecules written in another atom order; the fresh-process baseline is computed twice, working through the pool in opposite orders, and must agree with itself): "
+    "one case = one history (1-2 systems built over the pool's strings are observed as well: printed forms, generable, System.generate and the first molecules of the ensemble under a seeded generator, all against a fresh process): a random sequence of 40-160 operations over a pool of 3-12 parsed objects (all archetypes; two pool entries share one string; most entries are accompanied by a twin whose fragments are the same molecules written in another atom order; the fresh-process baseline is computed twice, working through the pool in opposite orders, and must agree with itself): "
     "parse again, generate(rng=seeded), generate() with the library's global generator (re-seeded / advanced arbitrarily), str, generate_string(False), "
     "elements / gen_mirror (and mutation of what they return), gen_reaction_graph, gen_stochastic_atom_graph + AtomGraph.generate, get_ensemble_prob on "
     "short chains, force-field typing with default and explicit files, generation that fails midway (incompatible prefix) followed by a retry, deepcopy. "
@@ -175,7 +175,7 @@ def baseline(items):
                 pass
 
 
-OPS = ["generate", "generate", "generate", "generate_global", "str", "noext", "elements_mutate", "mirror_mutate", "reaction_graph", "atom_graph", "ensemble_prob", "forcefield", "fail_then_retry", "deepcopy", "reparse", "perturb_global", "generable"]
+OPS = ["generate", "generate", "generate", "sys_observe", "sys_observe", "generate_global", "str", "noext", "elements_mutate", "mirror_mutate", "reaction_graph", "atom_graph", "ensemble_prob", "forcefield", "fail_then_retry", "deepcopy", "reparse", "perturb_global", "generable"]
 
 
 def run_case(case):
@@ -229,12 +229,27 @@ def run_case(case):
     texts = [t for t in texts if all(base[f"{t}|{s}"]["status"] != "watchdog" and base[f"{t}|{s}"]["seconds"] < 3.0 for s in seeds)]
     if not texts:
         return {"viol": [], "cnt": {"pool_failed": 1}, "nt": []}
+    # systems over the pool's strings (small system masses: a handful of molecules per ensemble)
+    sys_texts = []
+    for _ in range(rng.choice([1, 1, 2])):
+        comps = rng.sample(texts, min(len(texts), rng.choice([1, 2, 3])))
+        if rng.random() < 0.5:
+            comps.insert(rng.randrange(len(comps) + 1), rng.choice(["CCO", "C1CCOC1", "CC(=O)C"]))
+        sys_texts.append("".join(t + f".|{rng.choice([300, 800, 1500])}|" for t in comps))
+    try:
+        base_sys = baseline([[t, s, "system"] for t in sys_texts for s in seeds[:2]])
+    except Exception as exc:
+        return {"harness_error": f"baseline process failed: {exc}"}
+    sys_texts = [t for t in sys_texts if all(base_sys[f"{t}|{s}"]["single"][0] != "watchdog" and base_sys[f"{t}|{s}"]["ensemble"][0] != "watchdog" for s in seeds[:2])]
     texts.append(rng.choice(texts))  # two instances parsed from the same string
     # the history is fixed up front, so the baseline knows every (text, seed) it needs
     history = []
     for _ in range(case["len"]):
         history.append((rng.choice(OPS), rng.randrange(len(texts)), rng.choice(seeds)))
     pool = [gbigsmiles.Molecule(t) for t in texts]
+    spool = [gbigsmiles.System(t) for t in sys_texts]
+    n_mol = len(pool)
+    pool = pool + spool  # fingerprints of the systems are compared after every operation as well
     fps = [deep_fp(o) for o in pool]
     gen_count = collections.Counter()
     nontrivial = False
@@ -269,12 +284,33 @@ def run_case(case):
         elif rec["log"] != b["log"]:
             cnt["choice_log_differs_only"] += 1
 
+    def near_seq(a, b):
+        return len(a) == len(b) and all(x[0] == y[0] and abs(x[1] - y[1]) <= 1e-9 for x, y in zip(a, b))
+
     for step, (op, i, s) in enumerate(history):
         obj = pool[i]
+        if op.startswith("sys_") and not spool:
+            op = "str"
         cnt["operations"] += 1
         cnt["op_" + op] += 1
         try:
-            if op == "generate":
+            if op.startswith("sys_"):
+                j = i % len(spool)
+                S, st, s2 = spool[j], sys_texts[j], seeds[seeds.index(s) % 2]
+                b = base_sys[f"{st}|{s2}"]
+                POISON.uses = 0
+                with time_limit(90):
+                    rec = observe_system(S, s2)
+                cnt["system_observations_compared"] += 1
+                if POISON.uses:
+                    bad("c10.global-generator-used-although-one-was-supplied", f"system {j}: generation with an explicit generator (seed {s2}) drew {POISON.uses} times from the library's module-level generator", step)
+                if (rec["str"], rec["noext"], rec["generable"]) != (b["str"], b["noext"], b["generable"]):
+                    bad("c10.printed-form-changed", f"system {j}: printed forms / generable {rec['str']!r} {rec['generable']} differ from a fresh process {b['str']!r} {b['generable']}", step)
+                if "watchdog" not in (rec["single"][0], b["single"][0]) and (rec["single"][:2] != b["single"][:2] or (rec["single"][0] == "ok" and abs(rec["single"][2] - b["single"][2]) > 1e-9)):
+                    bad("c10.generation-differs-from-fresh-process", f"System.generate of system {j} ({st[:80]}) with seed {s2}: {rec['single']} here, {b['single']} in a fresh process", step)
+                if "watchdog" not in (rec["ensemble"][0], b["ensemble"][0]) and (rec["ensemble"][0] != b["ensemble"][0] or not near_seq(rec["ensemble"][-1], b["ensemble"][-1])):
+                    bad("c10.generation-differs-from-fresh-process", f"ensemble of system {j} ({st[:80]}) with seed {s2}: {[x[0] for x in rec['ensemble'][-1]][:6]} here, {[x[0] for x in b['ensemble'][-1]][:6]} in a fresh process", step)
+            elif op == "generate":
                 if gen_count[(i, s)] >= 1 and other_since[(i, s)] >= 1:
                     nontrivial = True
                 compare_generation(obj, i, s, step)
